@@ -101,6 +101,20 @@ theorem findField_skip (pre : List Field) (f : Field) (fr : List Field) (ix : Na
     congr 2
     omega
 
+theorem findField_sound : ∀ (fs : List Field) (id k ix : Nat) (f : Field),
+    findField fs id k = some (ix, f) → fs[ix - k]? = some f ∧ k ≤ ix
+  | [], _, _, _, _, h => by simp [findField] at h
+  | g :: r, id, k, ix, f, h => by
+    simp only [findField] at h
+    split at h
+    · simp only [Option.some.injEq, Prod.mk.injEq] at h
+      obtain ⟨rfl, rfl⟩ := h
+      simp
+    · have := findField_sound r id (k + 1) ix f h
+      have hk : ix - k = (ix - (k + 1)) + 1 := by omega
+      rw [hk, List.getElem?_cons_succ]
+      exact ⟨this.1, by omega⟩
+
 theorem lookupKnown_at (sd : SDesc) (pre : List Field) (f : Field) (fr : List Field)
     (hsd : sd.fields = pre ++ f :: fr) (hpw : sd.fields.Pairwise (fun a b => a.id ≠ b.id)) :
     lookupKnown sd f.id f.ty.wire = some (pre.length, f) := by
